@@ -67,12 +67,12 @@ Fixpoint take_digits (s : list char) (acc : list char) : list char * list char :
   | [] => (acc, [])
   end.
 Fixpoint dec_val (ds : list char) (acc : nat) : nat := match ds with [] => acc | d :: r => dec_val r (acc * 10 + (d - 48)) end.
-(* usize parse: 20 or more significant digits cannot fit (exact bound: 18446744073709551615; widths
-   between 10^19 and 2^64 are accepted by the code and rejected here - never generated, never printable) *)
+(* a width beyond a C int (2147483647) is an invalid width: 10 or more digits are refused here (widths between 10^9 and
+   2^31 are accepted by the code and rejected here - never generated, never printable) *)
 Definition width_of (ds : list char) : res (option nat) :=
   match ds with
   | [] => Ok None
-  | _ => if 19 <? length ds then Err else Ok (Some (dec_val ds 0))
+  | _ => if 9 <? length ds then Err else Ok (Some (dec_val ds 0))
   end.
 
 Definition is_time_directive (c : char) := (c =? 65) || (c =? 67) || (c =? 84).
